@@ -7,7 +7,7 @@ import z3
 from z3 import BitVecVal, BoolVal, Not, And, Or, If, ULT, ULE, UGE
 from mirsym.core import Agg, EnumV, Cell, Ref, conc
 from drivers import evalcore as E, walker as W
-import common
+import common, os
 
 KIND_NAME = {0: 'file', 1: 'dir', 2: 'symlink'}
 
@@ -113,14 +113,37 @@ def cli_replay(fs, m, mind, maxd, dfs, nroots):
     return rep
 
 
-def run_family(sess, M, nroots, dfs, fam):
+def cli_replay_fsroot(mi, ma, dfs):
+    """the real file-system root: every row of `path from / mindepth a maxdepth b` has between a and b components (volatile trees such as
+    /proc may come and go between two runs, so the rows are judged one by one, not compared with a listing)"""
+    def rep():
+        exe = common.native_binary()
+        a, b = max(mi, 1), (ma if ma else 0)
+        if not b or b > 3:
+            b = min(max(a, 2), 3); a = min(a, b)       # keep the walk of `/` shallow
+        argv = ['path', 'from', '/', 'mindepth', str(a), 'maxdepth', str(b)] + (['dfs'] if dfs else [])
+        import subprocess
+        try:
+            p = subprocess.run([exe] + argv, stdout=subprocess.PIPE, stderr=subprocess.PIPE, timeout=120, env={'PATH': os.environ['PATH'], 'HOME': '/nonexistent', 'TZ': 'UTC'})
+        except subprocess.TimeoutExpired:
+            return False, 'walking / took too long to replay'
+        rows = [r for r in p.stdout.decode('utf-8', 'replace').split('\n')[:-1] if not r.startswith(('/proc', '/sys', '/dev', '/run', '/tmp', '/var/tmp'))]
+        off = [r for r in rows if not (a <= len([c for c in r.split('/') if c]) <= b)]
+        top = sorted(e for e in os.listdir('/') if e not in ('proc', 'sys', 'dev', 'run', 'tmp'))
+        missing = [e for e in top if a <= 1 and '/' + e not in rows]
+        bad = bool(off) or bool(missing)
+        return bad, 'fselect %s -> %d rows, %d of them outside the window (e.g. %r)%s' % (' '.join(argv), len(rows), len(off), off[:2], (', entries of / missing: %r' % missing[:3]) if missing else '')
+    return rep
+
+
+def run_family(sess, M, nroots, dfs, fam, fsroot=False):
     prog = sess.prog
     ex = sess.executor(W.models(), unwind=M + 3, maxsteps=400000)
     viol = {}
     stats = {'paths': 0}
 
     def run(ctx):
-        fs = W.FS(ctx, M, roots=nroots)
+        fs = W.FS(ctx, M, roots=nroots, fsroot=fsroot)
         ctx.ghost['fs'] = fs
         ctx.ghost['match_all'] = BoolVal(True)
         mind = ctx.fresh_bv('mindepth', 32); maxd = ctx.fresh_bv('maxdepth', 32)
@@ -188,6 +211,10 @@ def run_family(sess, M, nroots, dfs, fam):
             m = ctx.model(Not(And(cs)))
             mi = m.eval(mind, model_completion=True).as_long(); ma = m.eval(maxd, model_completion=True).as_long()
             tree, path, par, kind, usable = tree_from_model(fs, m)
+            if fsroot and z3.is_true(m.eval(fs.fsroot, model_completion=True)):
+                sess.violated(name, role + '/filesystem-root', 'the root is `/`: mindepth=%d maxdepth=%d tree=%r: reported %r' % (mi, ma, {path[i]: KIND_NAME[kind[i]] for i in par}, [path.get(n, n) for n in trace]),
+                              {'mindepth': mi, 'maxdepth': ma}, cli_replay_fsroot(mi, ma, dfs), fam)
+                continue
             sess.violated(name, role, 'mindepth=%d maxdepth=%d tree=%r: reported %r' % (mi, ma, {path[i]: KIND_NAME[kind[i]] for i in par}, [path.get(n, n) for n in trace]),
                           {'mindepth': mi, 'maxdepth': ma, 'parents': par, 'kinds': kind, 'trace': trace},
                           cli_replay(fs, m, mi, ma, dfs, nroots), fam)
@@ -311,7 +338,7 @@ def main(sess):
     sess.engines = ['mirsym (MIR symbolic execution) + z3 %s' % z3.get_version_string()]
     sess.assumptions += [
         'abstract file system (drivers/walker.py): read_dir lists the children of a node in index order; DirEntry::{path,file_type,ino}, '
-        'canonicalize, read_link by contract; canonical depth = root depth (symbolic 1..4) + nesting',
+        'canonicalize, read_link by contract; canonical depth = root depth (symbolic 1..4) + nesting — except below the file-system root `/`, whose entries `/x` have no separator more than `/` (families walk/fsroot)',
         'summary: Searcher::check_file appends the entry to the ghost trace (its body is C02/C05/C06/C09); ResultsWriter::* emit tokens',
         'special files (FIFO, socket, device) behave like regular files for the walker (file_type is neither dir nor symlink)',
         'symlinks are not followed here (C18); ignore files off (C20); archives off (C19)',
@@ -328,5 +355,9 @@ def main(sess):
         fam = 'walk2/' + ('dfs' if dfs else 'bfs')
         if not only or fam in only:
             run_family(sess, M if not quick else 4, 2, dfs, fam)
+    for dfs in (False, True):
+        fam = 'walk/fsroot/' + ('dfs' if dfs else 'bfs')          # the root may be `/` itself: `/x` has no separator more than `/`
+        if not only or fam in only:
+            run_family(sess, 4, 1, dfs, fam, fsroot=True)
     if not only or 'root_options' in only:
         fam_root_options(sess)
